@@ -205,6 +205,7 @@ type State struct {
 	POLast  *POEvent
 	Resume  *poResume
 	POThreads []POThreadSpec
+	SiteVisits map[uint64]int
 	// results for the harness
 	Result []Value
 }
@@ -245,6 +246,12 @@ func (st *State) Fork() *State {
 		n.Panic = &p
 	}
 	n.POThreads = append([]POThreadSpec(nil), st.POThreads...)
+	if st.SiteVisits != nil {
+		n.SiteVisits = make(map[uint64]int, len(st.SiteVisits))
+		for k, v := range st.SiteVisits {
+			n.SiteVisits[k] = v
+		}
+	}
 	if st.Dirty != nil {
 		n.Dirty = make(map[int]bool, len(st.Dirty))
 		for k, v := range st.Dirty {
